@@ -76,6 +76,7 @@ class Connection(Stateful):
     def __init__(self, hostname, username, password, port=5672, **kwargs):
         super(Connection, self).__init__()
         self.lock = threading.RLock()
+        self._close_lock = threading.Lock()
         self.parameters = {
             'hostname': hostname,
             'username': username,
@@ -220,12 +221,16 @@ class Connection(Stateful):
         :return:
         """
         LOGGER.debug('Connection Closing')
-        if not self.is_closed:
-            self.set_state(self.CLOSING)
+        with self._close_lock:
+            # Only one caller sends Connection.Close; the others wait with it.
+            initiator = not self.is_closed and not self.is_closing
+            if initiator:
+                self.set_state(self.CLOSING)
         self.heartbeat.stop()
         try:
             if not self.is_closed and self.socket:
-                self._channel0.send_close_connection()
+                if initiator:
+                    self._channel0.send_close_connection()
                 self._wait_for_connection_state(state=Stateful.CLOSED)
         except AMQPConnectionError:
             pass
